@@ -1,8 +1,57 @@
 /-
   C08 — Widrow–Hoff learners follow the delta rule in all vector flavours.
+
+  What is proved
+  * the three kernels are the delta rule on their own row (`whR2R_eq_spec`,
+    `whB2R_eq_spec`, `whR2B_eq_spec`), for every OpenMP schedule / chunk size
+    (`wh_schedule_independent`, `wh_driver_eq_spec`);
+  * `wh.wh` from `weights=None`, end to end on names, for its three vector
+    flavours (`wh_r2b_end_to_end`, `wh_r2r_end_to_end`, `wh_b2r_end_to_end`);
+  * CONTINUED learning and CHAINS (PyndlProofs/WHChain.lean; this is also the
+    Widrow–Hoff half of C03 "continuing from earlier weights equals learning
+    everything in one pass … also when later parts introduce new cues or
+    outcomes"):
+      - the specifications started from a given weight function
+        (`whR2BSpecFrom`, `whB2RSpecFrom`, `whR2RSpecFrom`; the old ones are the
+        case of zero weights) and their append law `wh_*_spec_append`;
+      - one call with `weights = w`: `wh_r2b_continue`, `wh_b2r_continue`,
+        `wh_r2r_continue` — the model succeeds when the real-side labels of `w`
+        are the table's dimension labels (exactly the check of wh.py), returns
+        the old binary-side labels in their old positions followed by the new
+        ones, and denotes the specification continued from the weight function
+        `w` denotes; read through the labels: `wh_*_continue_get`; wrong
+        real-side labels ⇒ `ValueError`: `wh_continue_wrong_labels_raise`;
+        `weights=None` behaves like the empty (zero) matrix: `wh_none_is_empty_matrix`;
+      - chains (`whChainRun`: same flavour, tables and learning parameters,
+        per part its own duplicate policy and `n_outcomes_per_job`, every call
+        continuing from the previous result): `wh_chain_two`,
+        `wh_chain_any_length` (induction over the list of parts; the label /
+        shape conditions on the intermediate matrices are an invariant, not a
+        hypothesis), `wh_chain_eq_single_call` (= ONE call over the whole file
+        at every pair of labels, when all parts use the same policy).
+
+  partial:
+  * the ORDER in which wh.py appends new binary-side labels is
+    `list(set(new) - set(old))`, i.e. Python's set order; the model (`whModel`)
+    appends them in counting order.  The label-level conclusions
+    (`LW.get` / `optGet` at every pair of labels) do not mention that order, but
+    the statements about positions (`r.cues = w.cues ++ …`) are about the
+    model's order; "old labels keep their position" holds for both.
+  * given weights whose binary-side labels contain a duplicate: wh.py's
+    `OrderedDict` id map takes the LAST position of a repeated label, the model
+    (`idxOf`) the FIRST.  The theorems hold for the model as it is; every matrix
+    `wh.wh` itself returns has duplicate-free binary-side labels, so chains are
+    not affected.
+  * real → real needs `w.vals.size = rows * cols` (a DataArray invariant, which
+    wh.py checks as `weights.shape == shape`); for the other two flavours the
+    model re-allocates (`np.concatenate`) and nothing about the size is assumed.
+  * not modelled here: `method='numpy'` (single cue / single outcome events),
+    `dict_wh`, the attrs of the returned DataArray, and that the DataArray
+    handed in is not modified (C03 decides the latter by the differential run).
 -/
 import PyndlProofs.WH
 import PyndlProofs.WHSpec
+import PyndlProofs.WHChain
 
 namespace Pyndl.C08
 open Pyndl List
@@ -148,5 +197,382 @@ example :
     let w : Array ℤ := #[0, 0, 0, 0]
     whR2RRowEvent 1 cueVecs outVecs 2 2 w 0 [0, 0, 1] [0, 1] = #[8, 20, 0, 0] := by
   decide +kernel
+
+/-! ## continued learning (`weights=`) and chains of `wh.wh` calls -/
+
+/-- **append law of the specification, real → binary**: learning `xs ++ ys` from
+    the weight function `W` is learning `ys` from what learning `xs` from `W`
+    gives (the Widrow–Hoff analogue of `rwLearn_append`); `whR2BSpec` is
+    `whR2BSpecFrom` from zero weights -/
+theorem wh_r2b_spec_append (β₁ β₂ lam : R) (ct : VecTable R) (W : String → Nat → R)
+    (xs ys : List (Event String String)) :
+    whR2BSpecFrom β₁ β₂ lam ct W (xs ++ ys)
+      = whR2BSpecFrom β₁ β₂ lam ct (whR2BSpecFrom β₁ β₂ lam ct W xs) ys
+    ∧ whR2BSpec β₁ β₂ lam ct xs = whR2BSpecFrom β₁ β₂ lam ct (fun _ _ => 0) xs :=
+  ⟨whR2BSpecFrom_append β₁ β₂ lam ct W xs ys, rfl⟩
+
+/-- **append law of the specification, binary → real** -/
+theorem wh_b2r_spec_append (eta : R) (ot : VecTable R) (W : Nat → String → R)
+    (xs ys : List (Event String String)) :
+    whB2RSpecFrom eta ot W (xs ++ ys) = whB2RSpecFrom eta ot (whB2RSpecFrom eta ot W xs) ys
+    ∧ whB2RSpec eta ot xs = whB2RSpecFrom eta ot (fun _ _ => 0) xs :=
+  ⟨whB2RSpecFrom_append eta ot W xs ys, rfl⟩
+
+/-- **append law of the specification, real → real** -/
+theorem wh_r2r_spec_append (eta : R) (ct ot : VecTable R) (W : Nat → Nat → R)
+    (xs ys : List (Event String String)) :
+    whR2RSpecFrom eta ct ot W (xs ++ ys) = whR2RSpecFrom eta ct ot (whR2RSpecFrom eta ct ot W xs) ys
+    ∧ whR2RSpec eta ct ot xs = whR2RSpecFrom eta ct ot (fun _ _ => 0) xs :=
+  ⟨whR2RSpecFrom_append eta ct ot W xs ys, rfl⟩
+
+/-- any number of pieces: learning piece after piece is learning the concatenation -/
+theorem wh_spec_pieces (eta β₁ β₂ lam : R) (ct ot : VecTable R) (pieces : List (List (Event String String))) :
+    (∀ W, pieces.foldl (whR2BSpecFrom β₁ β₂ lam ct) W = whR2BSpecFrom β₁ β₂ lam ct W pieces.flatten) ∧
+    (∀ W, pieces.foldl (whB2RSpecFrom eta ot) W = whB2RSpecFrom eta ot W pieces.flatten) ∧
+    (∀ W, pieces.foldl (whR2RSpecFrom eta ct ot) W = whR2RSpecFrom eta ct ot W pieces.flatten) :=
+  ⟨fun W => whR2BSpecFrom_flatten β₁ β₂ lam ct W pieces, fun W => whB2RSpecFrom_flatten eta ot W pieces,
+    fun W => whR2RSpecFrom_flatten eta ct ot W pieces⟩
+
+/-- **continued `wh.wh`, real cue vectors → binary outcomes** (`weights = w`).
+    Hypotheses: `hc` `n_outcomes_per_job ≥ 1`; `htab` every cue of the events has
+    a row in `cue_vectors` (else `ValueError`); `hp` the duplicate policy accepts
+    the events; `hlab` the column labels of `w` are the cue vector dimensions of
+    the table, in order (else `ValueError`, `wh_continue_wrong_labels_raise`).
+    Nothing is assumed about the outcome labels of `w` or the size of its value
+    array.  Conclusion: the call succeeds; old outcomes keep their rows, the new
+    outcomes of the events are appended (in counting order); columns are the cue
+    vector dimensions; and the weight function the result denotes
+    (`LW.byOutcome`: outcome NAME, dimension position) is `whR2BSpecFrom`
+    continued from the weight function `w` denotes, on the policy-processed
+    events, for every chunk size. -/
+theorem wh_r2b_continue (p : DupPolicy) (eta β₁ β₂ lam : R) (ct : VecTable R)
+    (chunk : Nat) (hc : 1 ≤ chunk) (w : LW R) (es es' : List (Event String String))
+    (htab : ∀ e ∈ es, ∀ c ∈ e.cues, c ∈ ct.names)
+    (hp : applyPolicyAll p es = some es') (hlab : w.cues = ct.dims) :
+    ∃ r, whModel .r2b p eta β₁ β₂ lam (some ct) none chunk (some w) es = .ok r ∧
+      r.outcomes = w.outcomes ++ (countNames es).2.filter (fun o => !w.outcomes.contains o) ∧
+      r.cues = ct.dims ∧ r.vals.size = ct.dims.length * r.outcomes.length ∧
+      r.byOutcome = whR2BSpecFrom β₁ β₂ lam ct w.byOutcome es' :=
+  whModel_r2b_continue p eta β₁ β₂ lam ct chunk hc w es es' htab hp hlab
+
+/-- … read through the labels of the result, at EVERY (outcome name, label) -/
+theorem wh_r2b_continue_get (p : DupPolicy) (eta β₁ β₂ lam : R) (ct : VecTable R)
+    (chunk : Nat) (hc : 1 ≤ chunk) (w : LW R) (es es' : List (Event String String))
+    (htab : ∀ e ∈ es, ∀ c ∈ e.cues, c ∈ ct.names)
+    (hp : applyPolicyAll p es = some es') (hlab : w.cues = ct.dims) :
+    ∃ r, whModel .r2b p eta β₁ β₂ lam (some ct) none chunk (some w) es = .ok r ∧
+      ∀ o d, r.get o d = if d ∈ ct.dims
+        then whR2BSpecFrom β₁ β₂ lam ct w.byOutcome es' o (ct.dims.idxOf d) else 0 :=
+  whModel_r2b_continue_get p eta β₁ β₂ lam ct chunk hc w es es' htab hp hlab
+
+/-- **continued `wh.wh`, binary cues → real outcome vectors** (`weights = w`).
+    Hypotheses: `hc`, `hp` as above; `htabo` every outcome of the events has a
+    row in `outcome_vectors`; `hlab` the row labels of `w` are the outcome vector
+    dimensions of the table, in order.  Conclusion: old cues keep their columns,
+    the new cues of the events are appended; for every outcome vector dimension
+    `d` the row the result denotes (`LW.byCue`: dimension position, cue NAME) is
+    `whB2RSpecFrom` continued from the weight function `w` denotes — at every
+    cue name, for every chunk size. -/
+theorem wh_b2r_continue (p : DupPolicy) (eta β₁ β₂ lam : R) (ot : VecTable R)
+    (chunk : Nat) (hc : 1 ≤ chunk) (w : LW R) (es es' : List (Event String String))
+    (htabo : ∀ e ∈ es, ∀ o ∈ e.outcomes, o ∈ ot.names)
+    (hp : applyPolicyAll p es = some es') (hlab : w.outcomes = ot.dims) :
+    ∃ r, whModel .b2r p eta β₁ β₂ lam none (some ot) chunk (some w) es = .ok r ∧
+      r.outcomes = ot.dims ∧
+      r.cues = w.cues ++ (countNames es).1.filter (fun c => !w.cues.contains c) ∧
+      r.vals.size = r.cues.length * ot.dims.length ∧
+      ∀ d, d < ot.dims.length → r.byCue d = whB2RSpecFrom eta ot w.byCue es' d :=
+  whModel_b2r_continue p eta β₁ β₂ lam ot chunk hc w es es' htabo hp hlab
+
+theorem wh_b2r_continue_get (p : DupPolicy) (eta β₁ β₂ lam : R) (ot : VecTable R)
+    (chunk : Nat) (hc : 1 ≤ chunk) (w : LW R) (es es' : List (Event String String))
+    (htabo : ∀ e ∈ es, ∀ o ∈ e.outcomes, o ∈ ot.names)
+    (hp : applyPolicyAll p es = some es') (hlab : w.outcomes = ot.dims) :
+    ∃ r, whModel .b2r p eta β₁ β₂ lam none (some ot) chunk (some w) es = .ok r ∧
+      ∀ dl c, r.get dl c = if dl ∈ ot.dims
+        then whB2RSpecFrom eta ot w.byCue es' (ot.dims.idxOf dl) c else 0 :=
+  whModel_b2r_continue_get p eta β₁ β₂ lam ot chunk hc w es es' htabo hp hlab
+
+/-- **continued `wh.wh`, real → real** (`weights = w`).  Hypotheses: `hc`, `hp`,
+    both table checks; `hlo`, `hlc` the labels of `w` are the vector dimensions
+    of the two tables; `hsz` `w` has the shape its labels announce
+    (`weights.shape == shape` in wh.py; the given array is used as it is). -/
+theorem wh_r2r_continue (p : DupPolicy) (eta β₁ β₂ lam : R) (ct ot : VecTable R)
+    (chunk : Nat) (hc : 1 ≤ chunk) (w : LW R) (es es' : List (Event String String))
+    (htabc : ∀ e ∈ es, ∀ c ∈ e.cues, c ∈ ct.names)
+    (htabo : ∀ e ∈ es, ∀ o ∈ e.outcomes, o ∈ ot.names)
+    (hp : applyPolicyAll p es = some es') (hlo : w.outcomes = ot.dims) (hlc : w.cues = ct.dims)
+    (hsz : w.vals.size = w.outcomes.length * w.cues.length) :
+    ∃ r, whModel .r2r p eta β₁ β₂ lam (some ct) (some ot) chunk (some w) es = .ok r ∧
+      r.outcomes = ot.dims ∧ r.cues = ct.dims ∧
+      r.vals.size = r.outcomes.length * r.cues.length ∧
+      ∀ d, d < ot.dims.length → r.byPos d = whR2RSpecFrom eta ct ot w.byPos es' d :=
+  whModel_r2r_continue p eta β₁ β₂ lam ct ot chunk hc w es es' htabc htabo hp hlo hlc hsz
+
+theorem wh_r2r_continue_get (p : DupPolicy) (eta β₁ β₂ lam : R) (ct ot : VecTable R)
+    (chunk : Nat) (hc : 1 ≤ chunk) (w : LW R) (es es' : List (Event String String))
+    (htabc : ∀ e ∈ es, ∀ c ∈ e.cues, c ∈ ct.names)
+    (htabo : ∀ e ∈ es, ∀ o ∈ e.outcomes, o ∈ ot.names)
+    (hp : applyPolicyAll p es = some es') (hlo : w.outcomes = ot.dims) (hlc : w.cues = ct.dims)
+    (hsz : w.vals.size = w.outcomes.length * w.cues.length) :
+    ∃ r, whModel .r2r p eta β₁ β₂ lam (some ct) (some ot) chunk (some w) es = .ok r ∧
+      ∀ dlo dlc, r.get dlo dlc = if dlo ∈ ot.dims ∧ dlc ∈ ct.dims
+        then whR2RSpecFrom eta ct ot w.byPos es' (ot.dims.idxOf dlo) (ct.dims.idxOf dlc) else 0 :=
+  whModel_r2r_continue_get p eta β₁ β₂ lam ct ot chunk hc w es es' htabc htabo hp hlo hlc hsz
+
+/-- what "the weight function `w` denotes" means in terms of labels: with
+    duplicate-free real-side labels, position `k` / `d` holds the weight read at
+    the `k`-th / `d`-th label (`LW.get`) -/
+theorem wh_denotation_is_get (w : LW R) :
+    (w.cues.Nodup → ∀ o k (hk : k < w.cues.length), w.byOutcome o k = w.get o w.cues[k]) ∧
+    (w.outcomes.Nodup → ∀ d (hd : d < w.outcomes.length) c, w.byCue d c = w.get w.outcomes[d] c) ∧
+    (w.outcomes.Nodup → w.cues.Nodup → ∀ d k (hd : d < w.outcomes.length) (hk : k < w.cues.length),
+      w.byPos d k = w.get w.outcomes[d] w.cues[k]) :=
+  ⟨fun hn o k hk => LW.byOutcome_eq_get w hn o k hk, fun hn d hd c => LW.byCue_eq_get w hn d hd c,
+    fun hno hnc d k hd hk => LW.byPos_eq_get w hno hnc d k hd hk⟩
+
+/-- **wrong real-side labels ⇒ `ValueError`**, all three flavours, whatever the
+    events, policy and chunk size -/
+theorem wh_continue_wrong_labels_raise (p : DupPolicy) (eta β₁ β₂ lam : R) (ct ot : VecTable R)
+    (chunk : Nat) (w : LW R) (es : List (Event String String)) :
+    (w.cues ≠ ct.dims →
+      whModel .r2b p eta β₁ β₂ lam (some ct) none chunk (some w) es = .error .value) ∧
+    (w.outcomes ≠ ot.dims →
+      whModel .b2r p eta β₁ β₂ lam none (some ot) chunk (some w) es = .error .value) ∧
+    (w.outcomes ≠ ot.dims ∨ w.cues ≠ ct.dims →
+      whModel .r2r p eta β₁ β₂ lam (some ct) (some ot) chunk (some w) es = .error .value) :=
+  ⟨whModel_r2b_labelError p eta β₁ β₂ lam ct chunk w es, whModel_b2r_labelError p eta β₁ β₂ lam ot chunk w es,
+    whModel_r2r_labelError p eta β₁ β₂ lam ct ot chunk w es⟩
+
+/-- **`weights=None` is the empty / zero matrix**: from scratch, each flavour
+    behaves exactly (same result or same error) like a call continued from the
+    matrix with no binary-side labels (real → real: the zero matrix) -/
+theorem wh_none_is_empty_matrix (p : DupPolicy) (eta β₁ β₂ lam : R) (ct ot : VecTable R)
+    (chunk : Nat) (es : List (Event String String)) :
+    whModel .r2b p eta β₁ β₂ lam (some ct) none chunk none es
+      = whModel .r2b p eta β₁ β₂ lam (some ct) none chunk (some ⟨[], ct.dims, #[]⟩) es ∧
+    whModel .b2r p eta β₁ β₂ lam none (some ot) chunk none es
+      = whModel .b2r p eta β₁ β₂ lam none (some ot) chunk (some ⟨ot.dims, [], #[]⟩) es ∧
+    whModel .r2r p eta β₁ β₂ lam (some ct) (some ot) chunk none es
+      = whModel .r2r p eta β₁ β₂ lam (some ct) (some ot) chunk
+          (some ⟨ot.dims, ct.dims, Array.replicate (ot.dims.length * ct.dims.length) 0⟩) es :=
+  ⟨whModel_r2b_none p eta β₁ β₂ lam ct chunk es, whModel_b2r_none p eta β₁ β₂ lam ot chunk es,
+    whModel_r2r_none p eta β₁ β₂ lam ct ot chunk es⟩
+
+/-- **a chain of two `wh.wh` calls** (any flavour `fl` with its tables,
+    `WhTablesOK`: the tables fit the flavour and every name on a real side of the
+    events has a row; per call its own duplicate policy and chunk size ≥ 1): the
+    first call from `weights=None`, the second from what the first returned —
+    both succeed and the second result is, at EVERY pair of labels, the
+    specification of the flavour (`whSpecGet`: `whR2BSpec` / `whB2RSpec` /
+    `whR2RSpec` from zero, read at the labels) on the concatenation of the
+    policy-processed parts. -/
+theorem wh_chain_two (fl : WhFlavour) (eta β₁ β₂ lam : R) (cueTab outTab : Option (VecTable R))
+    (p₁ p₂ : DupPolicy) (chunk₁ chunk₂ : Nat) (hc₁ : 1 ≤ chunk₁) (hc₂ : 1 ≤ chunk₂)
+    (es₁ es₂ es₁' es₂' : List (Event String String))
+    (htab₁ : WhTablesOK fl cueTab outTab es₁) (htab₂ : WhTablesOK fl cueTab outTab es₂)
+    (hp₁ : applyPolicyAll p₁ es₁ = some es₁') (hp₂ : applyPolicyAll p₂ es₂ = some es₂') :
+    ∃ w₁ w₂, whModel fl p₁ eta β₁ β₂ lam cueTab outTab chunk₁ none es₁ = .ok w₁ ∧
+      whModel fl p₂ eta β₁ β₂ lam cueTab outTab chunk₂ (some w₁) es₂ = .ok w₂ ∧
+      ∀ a b, w₂.get a b = whSpecGet fl eta β₁ β₂ lam cueTab outTab (es₁' ++ es₂') a b :=
+  whChain_two fl eta β₁ β₂ lam cueTab outTab p₁ p₂ chunk₁ chunk₂ hc₁ hc₂ es₁ es₂ es₁' es₂' htab₁ htab₂ hp₁ hp₂
+
+/-- the binary side grows by appending: in a two-call chain the old cues
+    (binary → real) / outcomes (real → binary) keep their positions and the new
+    names of the second part follow -/
+theorem wh_chain_two_labels (eta β₁ β₂ lam : R) (ct ot : VecTable R) (p₁ p₂ : DupPolicy) (chunk₁ chunk₂ : Nat)
+    (hc₁ : 1 ≤ chunk₁) (hc₂ : 1 ≤ chunk₂) (es₁ es₂ es₁' es₂' : List (Event String String))
+    (hp₁ : applyPolicyAll p₁ es₁ = some es₁') (hp₂ : applyPolicyAll p₂ es₂ = some es₂') :
+    ((∀ e ∈ es₁, ∀ o ∈ e.outcomes, o ∈ ot.names) → (∀ e ∈ es₂, ∀ o ∈ e.outcomes, o ∈ ot.names) →
+      ∃ w₁ w₂, whModel .b2r p₁ eta β₁ β₂ lam none (some ot) chunk₁ none es₁ = .ok w₁ ∧
+        whModel .b2r p₂ eta β₁ β₂ lam none (some ot) chunk₂ (some w₁) es₂ = .ok w₂ ∧
+        w₁.cues = (countNames es₁).1 ∧
+        w₂.cues = w₁.cues ++ (countNames es₂).1.filter (fun c => !w₁.cues.contains c)) ∧
+    ((∀ e ∈ es₁, ∀ c ∈ e.cues, c ∈ ct.names) → (∀ e ∈ es₂, ∀ c ∈ e.cues, c ∈ ct.names) →
+      ∃ w₁ w₂, whModel .r2b p₁ eta β₁ β₂ lam (some ct) none chunk₁ none es₁ = .ok w₁ ∧
+        whModel .r2b p₂ eta β₁ β₂ lam (some ct) none chunk₂ (some w₁) es₂ = .ok w₂ ∧
+        w₁.outcomes = (countNames es₁).2 ∧
+        w₂.outcomes = w₁.outcomes ++ (countNames es₂).2.filter (fun o => !w₁.outcomes.contains o)) := by
+  constructor
+  · intro h1 h2
+    obtain ⟨w₁, w₂, a, b, c, d, _⟩ := whB2R_chain_two eta β₁ β₂ lam ot p₁ p₂ chunk₁ chunk₂ hc₁ hc₂
+      es₁ es₂ es₁' es₂' h1 h2 hp₁ hp₂
+    exact ⟨w₁, w₂, a, b, c, d⟩
+  · intro h1 h2
+    obtain ⟨w₁, w₂, a, b, c, d, _⟩ := whR2B_chain_two eta β₁ β₂ lam ct p₁ p₂ chunk₁ chunk₂ hc₁ hc₂
+      es₁ es₂ es₁' es₂' h1 h2 hp₁ hp₂
+    exact ⟨w₁, w₂, a, b, c, d⟩
+
+/-- **chains of `wh.wh` calls of ARBITRARY length, all three flavours.**
+
+    The chain `whChainRun`: the same flavour, tables, `eta`, `betas`, `lambda_`
+    for every call; per part (`WhPart`) its own events, `remove_duplicates` and
+    `n_outcomes_per_job`; the first call gets `weights=None`, every later call
+    the matrix the previous call returned.
+
+    Hypotheses: `hp` every part is accepted by ITS duplicate policy, `es'` is the
+    concatenation of the policy-processed parts; `hchunk` every
+    `n_outcomes_per_job ≥ 1`; `htab` the tables fit the flavour and every name
+    on a real side of the whole file has a row in its table (`ValueError`
+    otherwise).  Nothing is assumed about the intermediate matrices.
+
+    Conclusion: the chain runs through and its result, read through its labels,
+    is at EVERY pair of labels the specification of the flavour from zero
+    weights on `es'` — also when later parts introduce new cues (binary →
+    real) or new outcomes (real → binary). -/
+theorem wh_chain_any_length (fl : WhFlavour) (eta β₁ β₂ lam : R) (cueTab outTab : Option (VecTable R))
+    (parts : List WhPart) (es' : List (Event String String)) (hp : whChainPolicy parts = some es')
+    (hchunk : ∀ pt ∈ parts, 1 ≤ pt.chunk) (htab : WhTablesOK fl cueTab outTab (whAllEvents parts)) :
+    ∃ s, whChainRun fl eta β₁ β₂ lam cueTab outTab none parts = .ok s ∧
+      ∀ a b, optGet s a b = whSpecGet fl eta β₁ β₂ lam cueTab outTab es' a b :=
+  whChain_any_length fl eta β₁ β₂ lam cueTab outTab parts es' hp hchunk htab
+
+/-- **the chain equals ONE `wh.wh` call over the whole file** (from
+    `weights=None`, any chunk size ≥ 1), at every pair of labels, when all parts
+    and the single call use the same duplicate policy `p`; that `p` accepts the
+    whole file follows from the parts being accepted (`whChainPolicy_uniform`). -/
+theorem wh_chain_eq_single_call (fl : WhFlavour) (eta β₁ β₂ lam : R) (cueTab outTab : Option (VecTable R))
+    (parts : List WhPart) (p : DupPolicy) (hpol : ∀ pt ∈ parts, pt.policy = p)
+    (es' : List (Event String String)) (hp : whChainPolicy parts = some es')
+    (hchunk : ∀ pt ∈ parts, 1 ≤ pt.chunk) (htab : WhTablesOK fl cueTab outTab (whAllEvents parts))
+    (chunk : Nat) (hc : 1 ≤ chunk) :
+    ∃ s w, whChainRun fl eta β₁ β₂ lam cueTab outTab none parts = .ok s ∧
+      whModel fl p eta β₁ β₂ lam cueTab outTab chunk none (whAllEvents parts) = .ok w ∧
+      ∀ a b, optGet s a b = w.get a b :=
+  whChain_eq_single_call fl eta β₁ β₂ lam cueTab outTab parts p hpol es' hp hchunk htab chunk hc
+
+/-- the chain from ANY given weights satisfying the label check (stepwise form,
+    binary → real): the result denotes the specification continued from the
+    weight function the given weights denote -/
+theorem wh_b2r_chain_from (eta β₁ β₂ lam : R) (ot : VecTable R) (parts : List WhPart)
+    (s : Option (LW R)) (hs : ∀ w, s = some w → w.outcomes = ot.dims)
+    (es' : List (Event String String)) (hp : whChainPolicy parts = some es')
+    (hchunk : ∀ pt ∈ parts, 1 ≤ pt.chunk)
+    (htabo : ∀ pt ∈ parts, ∀ e ∈ pt.events, ∀ o ∈ e.outcomes, o ∈ ot.names) :
+    ∃ s', whChainRun .b2r eta β₁ β₂ lam none (some ot) s parts = .ok s' ∧
+      (∀ w, s' = some w → w.outcomes = ot.dims) ∧
+      ∀ d, d < ot.dims.length → optByCue s' d = whB2RSpecFrom eta ot (optByCue s) es' d :=
+  whChainRun_b2r_spec eta β₁ β₂ lam ot parts s hs es' hp hchunk htabo
+
+/-- … real → binary -/
+theorem wh_r2b_chain_from (eta β₁ β₂ lam : R) (ct : VecTable R) (parts : List WhPart)
+    (s : Option (LW R)) (hs : ∀ w, s = some w → w.cues = ct.dims)
+    (es' : List (Event String String)) (hp : whChainPolicy parts = some es')
+    (hchunk : ∀ pt ∈ parts, 1 ≤ pt.chunk)
+    (htab : ∀ pt ∈ parts, ∀ e ∈ pt.events, ∀ c ∈ e.cues, c ∈ ct.names) :
+    ∃ s', whChainRun .r2b eta β₁ β₂ lam (some ct) none s parts = .ok s' ∧
+      (∀ w, s' = some w → w.cues = ct.dims) ∧
+      optByOutcome s' = whR2BSpecFrom β₁ β₂ lam ct (optByOutcome s) es' :=
+  whChainRun_r2b_spec eta β₁ β₂ lam ct parts s hs es' hp hchunk htab
+
+/-- … real → real -/
+theorem wh_r2r_chain_from (eta β₁ β₂ lam : R) (ct ot : VecTable R) (parts : List WhPart)
+    (s : Option (LW R))
+    (hs : ∀ w, s = some w → w.outcomes = ot.dims ∧ w.cues = ct.dims ∧
+      w.vals.size = w.outcomes.length * w.cues.length)
+    (es' : List (Event String String)) (hp : whChainPolicy parts = some es')
+    (hchunk : ∀ pt ∈ parts, 1 ≤ pt.chunk)
+    (htabc : ∀ pt ∈ parts, ∀ e ∈ pt.events, ∀ c ∈ e.cues, c ∈ ct.names)
+    (htabo : ∀ pt ∈ parts, ∀ e ∈ pt.events, ∀ o ∈ e.outcomes, o ∈ ot.names) :
+    ∃ s', whChainRun .r2r eta β₁ β₂ lam (some ct) (some ot) s parts = .ok s' ∧
+      (∀ w, s' = some w → w.outcomes = ot.dims ∧ w.cues = ct.dims ∧
+        w.vals.size = w.outcomes.length * w.cues.length) ∧
+      ∀ d, d < ot.dims.length → optByPos s' d = whR2RSpecFrom eta ct ot (optByPos s) es' d :=
+  whChainRun_r2r_spec eta β₁ β₂ lam ct ot parts s hs es' hp hchunk htabc htabo
+
+/-! ### non-vacuity of the chain theorems (ℤ, tiny tables) -/
+
+/-- outcome vectors x = (1, 2), y = (0, 3) -/
+def exOT : VecTable ℤ := ⟨["x", "y"], ["d0", "d1"], #[1, 2, 0, 3]⟩
+/-- cue vectors a = (1, 0), b = (1, 1), c = (0, 2) -/
+def exCT : VecTable ℤ := ⟨["a", "b", "c"], ["k0", "k1"], #[1, 0, 1, 1, 0, 2]⟩
+
+/-- a 3-part binary → real chain; part 2 introduces the two new cues `c`, `d`
+    (and repeats a cue within an event), part 3 repeats an outcome -/
+def exB2R : List WhPart :=
+  [ ⟨.keep, 1, [⟨["a", "b"], ["x"]⟩]⟩,
+    ⟨.keep, 2, [⟨["c", "a", "c"], ["x", "y"]⟩, ⟨["d"], ["y"]⟩]⟩,
+    ⟨.keep, 3, [⟨["b", "d"], ["y", "y"]⟩]⟩ ]
+
+/-- a 3-part real → binary chain, a different duplicate policy per part; parts
+    2 and 3 bring the new outcomes `y`, `z` -/
+def exR2B : List WhPart :=
+  [ ⟨.error, 1, [⟨["a", "b"], ["x"]⟩]⟩,
+    ⟨.dedup, 2, [⟨["c", "a", "c"], ["x", "y", "y"]⟩, ⟨["b"], ["z"]⟩]⟩,
+    ⟨.keep, 3, [⟨["b", "b"], ["y"]⟩]⟩ ]
+
+def showRun : Except Err (Option (LW ℤ)) → Option (List String × List String × Array ℤ)
+  | .ok (some w) => some (w.outcomes, w.cues, w.vals)
+  | _ => none
+
+def showCall : Except Err (LW ℤ) → Option (List String × List String × Array ℤ)
+  | .ok w => some (w.outcomes, w.cues, w.vals)
+  | .error _ => none
+
+/-- the model runs: the matrices after 1, 2 and all 3 calls (old cues keep their
+    columns, `c`, `d` are appended by the second call), and the last one is what
+    ONE call over the whole file returns -/
+example :
+    showRun (whChainRun .b2r (1 : ℤ) 0 0 0 none (some exOT) none (exB2R.take 1))
+      = some (["d0", "d1"], ["a", "b"], #[1, 1,  2, 2]) ∧
+    showRun (whChainRun .b2r (1 : ℤ) 0 0 0 none (some exOT) none (exB2R.take 2))
+      = some (["d0", "d1"], ["a", "b", "c", "d"], #[1, 1, 0, 0,  5, 2, 6, 3]) ∧
+    showRun (whChainRun .b2r (1 : ℤ) 0 0 0 none (some exOT) none exB2R)
+      = some (["d0", "d1"], ["a", "b", "c", "d"], #[1, 0, 0, -1,  5, 3, 6, 4]) ∧
+    showCall (whModel .b2r .keep (1 : ℤ) 0 0 0 none (some exOT) 2 none (whAllEvents exB2R))
+      = some (["d0", "d1"], ["a", "b", "c", "d"], #[1, 0, 0, -1,  5, 3, 6, 4]) :=
+  ⟨by decide +kernel, by decide +kernel, by decide +kernel, by decide +kernel⟩
+
+/-- … and these are the numbers of the specification over the whole file -/
+example :
+    (["d0", "d1"].map fun dl => ["a", "b", "c", "d"].map fun c =>
+      whSpecGet .b2r (1 : ℤ) 0 0 0 none (some exOT) (whAllEvents exB2R) dl c)
+      = [[1, 0, 0, -1], [5, 3, 6, 4]] := by
+  decide +kernel
+
+/-- the hypotheses of `wh_chain_any_length` / `wh_chain_eq_single_call` are jointly
+    satisfiable (binary → real): the example instantiates every one of them -/
+example :
+    ∃ s w, whChainRun .b2r (1 : ℤ) 0 0 0 none (some exOT) none exB2R = .ok s ∧
+      whModel .b2r .keep (1 : ℤ) 0 0 0 none (some exOT) 2 none (whAllEvents exB2R) = .ok w ∧
+      ∀ a b, optGet s a b = w.get a b :=
+  wh_chain_eq_single_call .b2r 1 0 0 0 none (some exOT) exB2R .keep (by decide) (whAllEvents exB2R)
+    (by decide +kernel) (by decide) (by decide +kernel) 2 (by decide)
+
+/-- … real → binary, a different policy per part (`es'` = the policy-processed
+    parts: the repeated `c` and `y` of part 2 are removed, the repeated `b` of
+    part 3 is kept), new outcomes in parts 2 and 3 -/
+example :
+    ∃ s, whChainRun .r2b (0 : ℤ) 1 1 3 (some exCT) none none exR2B = .ok s ∧
+      ∀ a b, optGet s a b = whSpecGet .r2b (0 : ℤ) 1 1 3 (some exCT) none
+        [⟨["a", "b"], ["x"]⟩, ⟨["c", "a"], ["x", "y"]⟩, ⟨["b"], ["z"]⟩, ⟨["b", "b"], ["y"]⟩] a b :=
+  wh_chain_any_length .r2b 0 1 1 3 (some exCT) none exR2B _ (by decide +kernel) (by decide) (by decide +kernel)
+
+example :
+    showRun (whChainRun .r2b (0 : ℤ) 1 1 3 (some exCT) none none exR2B)
+      = some (["x", "y", "z"], ["k0", "k1"], #[-57, -69,  36, 39,  -21, -21]) := by
+  decide +kernel
+
+/-- a 3-part real → real chain (cues and outcomes are rows of `exCT` / `exOT`) -/
+def exR2R : List WhPart :=
+  [ ⟨.error, 1, [⟨["a", "b"], ["x"]⟩]⟩,
+    ⟨.dedup, 2, [⟨["c", "a", "c"], ["x", "y"]⟩]⟩,
+    ⟨.keep, 1, [⟨["b", "b"], ["y", "y"]⟩]⟩ ]
+
+/-- … real → real -/
+example :
+    ∃ s, whChainRun .r2r (1 : ℤ) 0 0 0 (some exCT) (some exOT) none exR2R = .ok s ∧
+      ∀ a b, optGet s a b = whSpecGet .r2r (1 : ℤ) 0 0 0 (some exCT) (some exOT)
+        [⟨["a", "b"], ["x"]⟩, ⟨["c", "a"], ["x", "y"]⟩, ⟨["b", "b"], ["y", "y"]⟩] a b :=
+  wh_chain_any_length .r2r 1 0 0 0 (some exCT) (some exOT) exR2R _ (by decide +kernel) (by decide)
+    (by decide +kernel)
+
+/-- wrong real-side labels in the given weights: `ValueError` -/
+example :
+    showCall (whModel .b2r .keep (1 : ℤ) 0 0 0 none (some exOT) 1
+      (some ⟨["d0", "WRONG"], ["a"], #[1, 2]⟩) [⟨["a"], ["x"]⟩]) = none ∧
+    whModel .b2r .keep (1 : ℤ) 0 0 0 none (some exOT) 1
+      (some ⟨["d0", "WRONG"], ["a"], #[1, 2]⟩) [⟨["a"], ["x"]⟩] = .error .value :=
+  ⟨by decide +kernel, whModel_b2r_labelError _ _ _ _ _ _ _ _ _ (by decide)⟩
 
 end Pyndl.C08
